@@ -574,6 +574,18 @@ impl Shard {
 }
 
 fn run_shard(ctx: &Ctx, base: &Report, s: &Shard, mode: Mode) -> ShardOut {
+    match catch_any(|| run_shard_inner(ctx, base, s, mode)) {
+        Ok(o) => o,
+        Err(pi) => {
+            let mut rep = base.fork();
+            rep.count("shards.aborted");
+            rep.inconclusive(&format!("shard {} aborted by an unguarded panic: {} at {}", s.label(), pi.message, pi.location));
+            ShardOut { rep, stats: BTreeMap::new() }
+        }
+    }
+}
+
+fn run_shard_inner(ctx: &Ctx, base: &Report, s: &Shard, mode: Mode) -> ShardOut {
     let label = s.label();
     match (s.engine, s.dual) {
         ("bls12_381", false) => bls::inner::run_ops(ctx, base, &label, mode),
